@@ -48,6 +48,21 @@ STRENGTH.update({
  "C15-3":"state right after a fragmented message was reassembled; ill-formed carriers of valid tags (fragment with non-numeric counter, D-H Commit cut in its body) must not bind — genuine defect found and fixed (dab2f3e)",
  "C16-3":"part (d): every policy without a version x every OTR-looking message kind (queries, error reports, encoded messages, fragments, tags): Receive and Send are the identity",
  "C19-3":"letter E (error report delivered) in the pattern alphabet, one text each way before the periodic part"})
+BEFORE.update({
+ "C01-4":"caught","C02-4":"missed (caught by C09)","C03-4":"missed","C04-4":"caught","C05-4":"caught","C06-4":"caught","C07-4":"caught","C08-4":"missed","C09-4":"missed","C10-4":"missed by C10 (caught by C14 and C04)",
+ "C11-4":"caught","C12-4":"missed","C13-4":"missed","C14-4":"caught","C15-4":"caught","C16-4":"missed","C17-4":"missed by C17 (caught by C10)","C18-4":"missed","C19-4":"caught","C20-4":"missed (race pass too)"})
+STRENGTH.update({
+ "C02-4":"states after bursts of three messages in a row from either side (the moment at which keys of a still-accepted pair could be disclosed)",
+ "C03-4":"marker texts that begin like an OTR query, error report or encoded message",
+ "C08-4":"every buffer in which a live D-H exponent was seen is remembered (alias) and must be zeroed once the exponent is dead, not only the buffer it was drawn into; this exposed a genuine defect (End()/peer disconnect drop an exchange in progress without wiping it, fix 585b778)",
+ "C09-4":"End + new exchange as an event; this exposed a genuine defect (the side that receives the disconnect never discloses the MAC keys it used, fix 088481f)",
+ "C10-4":"fragment trains must be labelled 1..n of n with exactly n pieces, for every fragment size 20..340",
+ "C12-4":"a StartAuthenticate that the library refuses (question too long) must not move the SMP state machine",
+ "C13-4":"tagged plaintext with every 8-character blank/tab group behind the whitespace tag base (hang detection with a per-second sign of life from the workers); the seed's author also pointed at two genuine defects, both reproduced by new C13 inputs and repaired (f308040, b6c8f2e)",
+ "C16-4":"pass-through receivers that are in plaintext state with a key exchange under way",
+ "C17-4":"every integer a running conversation emits (g^y, the committed g^x, next D-H keys) must be minimal, with scripted tiny exponents",
+ "C18-4":"texts that Send refused in the finished state must never reach the wire",
+ "C20-4":"a configuration with two fragmenting threads (T2/k11), so that a buffer handed out by one conversation can be overwritten by the other"})
 rows=[]
 for d in sorted(glob.glob(os.path.join(ROOT,'seeded','C*'))):
     pid=os.path.basename(d)
